@@ -336,6 +336,45 @@ func (p *blockPlan) v1Prove() bool {
 	return false
 }
 
+// v1ReviseThenProve: in the one block whose height equals the contract's window start, a transaction revises the
+// contract (changing the payout split) and a later transaction of the same block supplies the storage proof; the
+// window ID is then the parent block's ID, and the payouts must be those of the revision
+func (p *blockPlan) v1ReviseThenProve() bool {
+	c := p.c
+	var ids []types.FileContractID
+	for id := range c.st().fces {
+		ids = append(ids, id)
+	}
+	sort.Slice(ids, func(i, j int) bool { return string(ids[i][:]) < string(ids[j][:]) })
+	for _, id := range ids {
+		e := c.st().fces[id]
+		k, _, ok := c.keyOf(e.FileContract.UnlockHash)
+		data, okd := c.files[id]
+		if !ok || !okd || p.usedFC[id] || e.FileContract.WindowStart != c.child() || e.FileContract.RevisionNumber > 1<<60 {
+			continue
+		}
+		p.usedFC[id] = true
+		rev := e.FileContract
+		rev.RevisionNumber += 1 + c.r.rng.Uint64N(5)
+		rev.ValidProofOutputs = append([]types.SiacoinOutput(nil), rev.ValidProofOutputs...)
+		d := rev.ValidProofOutputs[0].Value.Div64(3)
+		rev.ValidProofOutputs[0].Value = rev.ValidProofOutputs[0].Value.Sub(d)
+		rev.ValidProofOutputs[1].Value = rev.ValidProofOutputs[1].Value.Add(d)
+		txn := types.Transaction{FileContractRevisions: []types.FileContractRevision{{ParentID: id, UnlockConditions: c.uc(k), FileContract: rev}}}
+		c.signV1(&txn, map[types.Hash256]int{types.Hash256(id): k}, false)
+		idx := c.cs().StorageProofLeafIndex(uint64(len(data)), c.cs().Index.ID, id)
+		sp := types.StorageProof{ParentID: id}
+		if len(data) > 0 {
+			copy(sp.Leaf[:], data[idx*64:])
+			sp.Proof = naiveFileProof(fileLeafHashes(data), int(idx))
+		}
+		p.txns = append(p.txns, txn, types.Transaction{StorageProofs: []types.StorageProof{sp}})
+		c.r.count("gen-v1-revise-then-prove")
+		return true
+	}
+	return false
+}
+
 func (p *blockPlan) v1Siafunds() bool {
 	c := p.c
 	var ids []types.SiafundOutputID
@@ -810,6 +849,9 @@ func (c *lchain) honestBlock() (types.Block, consensus.V1BlockSupplement) {
 	n := c.r.rng.IntN(5)
 	if v1ok && c.r.rng.IntN(2) == 0 {
 		p.v1SpendSpecial()
+	}
+	if v1ok {
+		p.v1ReviseThenProve() // whenever a contract's window opens with this block
 	}
 	for i := 0; i < n; i++ {
 		if v1ok && (!v2ok || c.r.rng.IntN(2) == 0) {
